@@ -46,7 +46,9 @@ Inductive case :=
 | CSelNew (dbg : bool) (steps : list step) (r : outcome (option (selector * bytes)))
                                                                  (* AttributeSelector::new, then Display *)
 | CSelParse (dbg : bool) (s : bytes) (r : outcome selector)      (* StandardDataDictionary.parse_selector *)
-| CDictTag (s : bytes) (r : outcome (option tag)).               (* StandardDataDictionary.parse_tag *)
+| CDictTag (s : bytes) (r : outcome (option tag))                (* StandardDataDictionary.parse_tag *)
+| CTagRange (s : bytes) (r : outcome (N * tag))                  (* TagRange::from_str: kind 0 Single, 1 Group100, 2 Element100 *)
+| CVr (s : bytes) (r : outcome N).                               (* VR::from_str *)
 
 Definition selpr_eqb (a b : selector * bytes) : bool :=
   sel_eqb (fst a) (fst b) && bytes_eqb (snd a) (snd b).
@@ -65,4 +67,10 @@ Definition check_case (c : case) : bool :=
          end) r
   | CSelParse dbg s r => outcome_eqb sel_eqb (parse_selector std_by_name dbg s) r
   | CDictTag s r => outcome_eqb (opt_eqb tag_eqb) (parse_tag_dict std_by_name s) r
+  | CTagRange s r =>
+      outcome_eqb (fun a b => (fst a =? fst b) && tag_eqb (snd a) (snd b))
+        (match tag_range_from_str s with
+         | Ok (TRSingle t) => Ok (0, t) | Ok (TRGroup100 t) => Ok (1, t) | Ok (TRElement100 t) => Ok (2, t)
+         | Err e => Err e | Panic w => Panic w end) r
+  | CVr s r => outcome_eqb N.eqb (vr_from_str s) r
   end.
